@@ -113,7 +113,7 @@ fn gen_random(rng: &mut Rng) -> Vec<Op> {
                 27..=28 => signed(id, s, -1, true),
                 29..=30 => signed(id, s, 10, true),
                 31 => signed(id, s, rng.range(11, 14) as i64, true),
-                32 => signed(id, s, 0, false),
+                32 => signed(id, s, *rng.pick(&[0i64, 0, 1, 2]), false),
                 33..=35 => Tx {
                     id,
                     kind: TxKind::Call { sender: rng.below(4) as u8, target: Target::Contract(0), by_inscription: false, data: payload(id) },
@@ -240,7 +240,7 @@ impl Prop for C08 {
             .collect()
     }
     fn rule(&self) -> String {
-        "case = a faulty channel of signed legacy transactions of 3 signers (nonce relative to the account: in order, 1..9 ahead, stale, exactly 10 ahead, beyond, wrong chain id, duplicates / replacements of a waiting nonce) interleaved with inscription transactions, idle gaps of 1..10 mined blocks, commits and reorgs; one third of the runs are window-edge scenarios (1-3 parked nonces in every arrival order, predecessor arriving when the oldest is 8..12 blocks old). Reference pool model (constants 10/10 from the statement): expected number of receipts per brc20_transact, nonce and index of every receipt, eth_getTransactionCount, txpool_content (entries whose expiry falls on the neighbouring block may or may not be listed), executed nonces per signer consecutive from 0; a well-formed call must not be rejected, and the block must finalise with the counted number of transactions. distinct = sha256 of op list; non-trivial = at least one parked transaction was drained or dropped at expiry".into()
+        "case = a faulty channel of signed legacy transactions of 3 signers (nonce relative to the account: in order, 1..9 ahead, stale, exactly 10 ahead, beyond, wrong chain id (another id, the neighbouring id, or a pre-EIP-155 signature without any chain id), duplicates / replacements of a waiting nonce) interleaved with inscription transactions, idle gaps of 1..10 mined blocks, commits and reorgs; one third of the runs are window-edge scenarios (1-3 parked nonces in every arrival order, predecessor arriving when the oldest is 8..12 blocks old). Reference pool model (constants 10/10 from the statement): expected number of receipts per brc20_transact, nonce and index of every receipt, eth_getTransactionCount, txpool_content (entries whose expiry falls on the neighbouring block may or may not be listed), executed nonces per signer consecutive from 0; a well-formed call must not be rejected, and the block must finalise with the counted number of transactions. distinct = sha256 of op list; non-trivial = at least one parked transaction was drained or dropped at expiry".into()
     }
     fn assumptions(&self) -> Vec<String> {
         vec![
